@@ -923,6 +923,11 @@ add("once-09-flag-set-on-a-real-item", ["C08"], "helpers",
     "    start = datetime.now()\n    while True:\n        q_item = in_queue.get()",
     "    start = datetime.now()\n    finished = False\n    while not finished:\n        q_item = in_queue.get()\n        finished = q_item == b''",
     rules=["once"], note="a real (empty) item ends the worker loop")
+add("E-report-02-key-respelt-with-tobytes", ["C03", "C04", "C13"], "heavyhitters",
+    "                key = bytes(self.lhh[row, column, :key_len])", "                key = self.lhh[row, column].tobytes()[:key_len]", kind="E",
+    note="the reported key built as lhh[r, c].tobytes()[:n] instead of bytes(lhh[r, c, :n])")
+add("E-report-03-key-slice-tobytes", ["C03", "C04", "C13"], "heavyhitters",
+    "                key = bytes(self.lhh[row, column, :key_len])", "                key = self.lhh[row, column, :key_len].tobytes()", kind="E")
 add("E-global-08-rename-kernel-parameters", ALL_PROPS, "*", _rename_kernel_params, None, kind="E",
     note="every parameter of every @njit kernel renamed (call sites are positional)")
 add("E-global-09-rename-private-functions", ALL_PROPS, "*", _rename_private_functions, None, kind="E",
